@@ -48,6 +48,8 @@ type Case struct {
 	NoFinalNL bool     `json:"no_final_newline,omitempty"`
 	Probes    []Probe  `json:"probes"`
 	Tags      []string `json:"tags,omitempty"`
+	// topology phase only: several cooperating ip_set plugins (see topo.go)
+	Topo []TopoNode `json:"topo,omitempty"`
 
 	ready bool
 }
@@ -386,6 +388,11 @@ func (e *env) runCase(c *Case) (res caseResult) {
 	}()
 	if err := c.prepare(); err != nil {
 		res.harnessErr = err.Error()
+		return
+	}
+	if len(c.Topo) > 0 {
+		curLayer = "ipset-topology"
+		e.runTopo(c, &res)
 		return
 	}
 	rules := make([]rule, len(c.Items))
